@@ -86,14 +86,35 @@ pub const WATCHDOG_SECS: u64 = 20;
 
 /// Runs `f` on its own thread (default 2 MiB stack, as a library user's thread would
 /// have); None = the call did not return within the watchdog time.
+static TIMEOUTS: std::sync::atomic::AtomicUsize = std::sync::atomic::AtomicUsize::new(0);
+
+/// how many calls have not returned so far in this process
+pub fn timeouts() -> usize {
+    TIMEOUTS.load(std::sync::atomic::Ordering::Relaxed)
+}
+
 pub fn watchdog<T: Send + 'static>(f: impl FnOnce() -> T + Send + 'static) -> Option<T> {
+    // once calls have hung, the next ones get less patience: a hanging implementation must end the run with its
+    // violations recorded, not stall it (every hung call keeps its thread spinning)
+    let patience = match timeouts() {
+        0 => WATCHDOG_SECS,
+        1..=2 => 6,
+        3..=10 => 2,
+        _ => 1,
+    };
     let (tx, rx) = mpsc::channel();
     let h = thread::Builder::new().spawn(move || {
         let r = f();
         let _ = tx.send(r);
     });
     match h {
-        Ok(_) => rx.recv_timeout(Duration::from_secs(WATCHDOG_SECS)).ok(),
+        Ok(_) => {
+            let r = rx.recv_timeout(Duration::from_secs(patience)).ok();
+            if r.is_none() {
+                TIMEOUTS.fetch_add(1, std::sync::atomic::Ordering::Relaxed);
+            }
+            r
+        }
         Err(_) => None,
     }
 }
